@@ -71,7 +71,7 @@ var newlinePattern = regexp.MustCompile(`\r\n|\r|\n`)
 
 func directiveChangeNewlineToBr(value data.Value, _ []data.Value) data.Value {
 	return data.String(newlinePattern.ReplaceAllString(
-		template.HTMLEscapeString(value.String()),
+		escapeHtml(value.String()),
 		"<br>"))
 }
 
@@ -118,7 +118,15 @@ func directiveNoAutoescape(value data.Value, _ []data.Value) data.Value {
 }
 
 func directiveEscapeHtml(value data.Value, _ []data.Value) data.Value {
-	return data.String(template.HTMLEscapeString(value.String()))
+	return data.String(escapeHtml(value.String()))
+}
+
+// escapeHtml escapes the string exactly as autoescaping does.
+// (text/template's HTMLEscapeString also replaces NUL bytes by U+FFFD.)
+func escapeHtml(str string) string {
+	var buf bytes.Buffer
+	htmlEscapeString(&buf, str)
+	return buf.String()
 }
 
 func directiveEscapeUri(value data.Value, _ []data.Value) data.Value {
